@@ -55,7 +55,7 @@ def run(ctx, proofs_ok):
               ("the same on Pebble", shapes(f"open a pebble {pdir}"), False),
               ("empty and one-byte values of every type through eviction, reload and reopen (memory)", edge_values("open a mem"), False),
               ("empty and one-byte values of every type through eviction, reload and reopen (Pebble)", edge_values(f"open a pebble {pdir}-edge"), False),
-              ("writers: every writing method once on clean, just reloaded keys (own keys each; two-key commands with clean source and destination), then Close + Open (memory)", cleanwrite.table("open a mem"), False),
+              ("writers: every writing method once on clean, just reloaded keys (own keys each; two-key commands with clean source and destination), then Close + Open (memory)", cleanwrite.table("open a mem", relative=True), True),
               ("writers-pebble: the same on Pebble", cleanwrite.table(f"open a pebble {pdir}-cw"), False),
               ("writers-deadline: the same with deadlines on every key (Pebble)", cleanwrite.table(f"open a pebble {pdir}-cwd", with_deadline=True), False)])
     shutil.rmtree(pdir + "-cw", ignore_errors=True)
